@@ -109,13 +109,16 @@ def run(chk):
                 def live():
                     o = zoo.build(name, x.copy(), nfft, 1.0, False, **over)
                     first = np.array(o.psd)
+                    o.frequencies()                    # (the axis has been looked at on the coarse grid)
                     o.NFFT = c * nfft
-                    return first, np.array(o.get_converted_psd('onesided' if o.datatype == 'real' else 'twosided')), np.array(o.psd)
+                    return (first, np.array(o.get_converted_psd('onesided' if o.datatype == 'real' else 'twosided')), np.array(o.psd),
+                            zoo.readback_dev(o, c * nfft, 1.0))
                 ok1, r = call_guard(live)
                 ok2, fresh = call_guard(lambda: np.array(zoo.build(name, x.copy(), c * nfft, 1.0, False, **over).psd))
                 ev['raised'] = not (ok1 and ok2)
                 if ok1 and ok2:
-                    first, conv, second = r
+                    first, conv, second, rb = r
+                    ev['grid_dev'] = obs.q(rb)
                     ev['len_ok'] = bool(conv.shape == fresh.shape and second.shape == fresh.shape)
                     ev['dev'] = obs.q(max(zoo.rel_dev(conv, fresh), zoo.rel_dev(second, fresh))) if ev['len_ok'] else obs.QCAP
                     ev['par_dev'] = 0
